@@ -87,7 +87,26 @@ u8* _ZN3tbb6detail2r126allocate_bounded_queue_repEm(u64 n) {
   VP_ASSERT(n == sizeof(rep_t) && !rep_used, "unexpected representation size"); rep_used = 1; return (u8*)&REP;
 }
 #endif
-#if REALCPP
+#if REALCPP == 2
+struct S_class_tbb__detail__r1__concurrent_monitor MON[2];   /* see vp_q_relocate_monitors in the wrapper */
+/* REALCPP=2 units: src/tbb/concurrent_bounded_queue.cpp AND concurrent_monitor_base / sleep_node (wait set, epoch, predicate evaluation on
+   every node's context, my_is_in_list, skipped wake-ups, abort flags) are real code of the unit. Cut (contract stubs):
+   binary_semaphore::P(): returns (closing the semaphore) if a V is pending, else the caller sleeps until one is;  V(): opens it;
+   d0::timed_spin_wait_until in concurrent_monitor_mutex::lock: the bounded spin is modelled as "spin until the mutex is seen free"
+   (the futex slow path of that mutex is C02's subject and not reached here). */
+void _ZN3tbb6detail2r116binary_semaphore1PEv(struct S_class_tbb__detail__r1__binary_semaphore* s) {
+  if (vp_sem_get(s) == 0) { vp_sem_set(s, 1); return; }
+  bq_sleeps++; VP_BLOCK();
+}
+void _ZN3tbb6detail2r116binary_semaphore1VEv(struct S_class_tbb__detail__r1__binary_semaphore* s) { vp_sem_set(s, 0); bq_wakes++; vp_changed = 1; }
+u8 _ZN3tbb6detail2d021timed_spin_wait_untilIZNS0_2r124concurrent_monitor_mutex4lockEvEUlvE_EEbT_(struct S_class_tbb__detail__r1__concurrent_monitor_mutex* mx) {
+  if (vp_cmm_is_free(mx)) return 1;
+  VP_BLOCK(); return 0;
+}
+void vpx___cxa_pure_virtual(void) { VP_ASSERT(0, "pure virtual call"); }
+void _ZdlPv(u8* p) { VP_ASSERT(0, "operator delete: nothing here is heap-allocated with new"); }
+u64 vpx_syscall(u64 nr, ...) { VP_ASSERT(0, "futex syscall: semaphore and monitor-mutex slow paths are cut in this unit"); return 0; }
+#elif REALCPP == 1
 /* REALCPP units: src/tbb/concurrent_bounded_queue.cpp is real code of the unit (wait/notify/abort wrappers, predicate_leq, allocation);
    the boundary is concurrent_monitor_base<uintptr_t>::wait(pred, node) / notify(predicate_leq) / abort_all, with the same contracts.
    `pred` of wait is the closure `[&]{ return !predicate(); }` built by wait_bounded_queue_monitor: one captured reference (closure->f0);
@@ -103,6 +122,7 @@ void _ZN3tbb6detail2r126wait_bounded_queue_monitorEPNS1_18concurrent_monitorEmlR
     struct S_class_tbb__detail__r1__concurrent_monitor* mon, u64 tag, u64 target, struct S_class_tbb__detail__d1__delegate_base* pred) {
   unsigned t = vp_cur;
 #endif
+#if REALCPP != 2
   __CPROVER_assume(t < 3);
 #if ABORTS
   if (bq_aborted[t]) { bq_aborted[t] = 0; vp_throw_user(&TI_ABORT); return; }   /* woken by abort_all: the wait throws user_abort */
@@ -125,7 +145,9 @@ void _ZN3tbb6detail2r128abort_bounded_queue_monitorsEPNS1_18concurrent_monitorE(
 }
 void _ZdlPv(u8* p) { VP_ASSERT(0, "operator delete: nothing here is heap-allocated with new"); }
 #endif
-#if REALCPP
+#endif   /* REALCPP != 2 */
+#if REALCPP == 2
+#elif REALCPP == 1
 void _ZN3tbb6detail2r123concurrent_monitor_baseImE6notifyINS1_13predicate_leqEEEvRKT_(struct S_class_tbb__detail__r1__concurrent_monitor_base* mon, struct S_struct_tbb__detail__r1__predicate_leq* sel) {
   bq_notifies++;
   for (int t = 0; t < 3; t++) if (bq_sleeping[t] && bq_tag[t] == mon_tag(mon) && vp_call_leq(sel, bq_target[t])) { bq_sleeping[t] = 0; bq_woken[t] = 1; bq_wakes++; vp_changed = 1; }
@@ -237,6 +259,9 @@ int main(void) {
 #if BOUNDED
   vp_q_set_capacity(&Q, CAP);
 #endif
+#if REALCPP == 2
+  vp_q_relocate_monitors(&Q, MON);
+#endif
   /* pre-state through the real operations (sequential) */
   for (int i = 0; i < PRE_PUSH; i++) vp_q_push(&Q, PREVAL(i));
   for (int i = 0; i < PRE_POP; i++) { u32 v = 0; int ok = vp_q_try_pop(&Q, &v); VP_ASSERT(ok && v == PREVAL(i), "sequential pre-state pop returned the wrong item"); }
@@ -309,6 +334,10 @@ int main(void) {
 #if BOUNDED
   VP_ASSERT(PRE_PUSH - PRE_POP + npush - npop_ok <= CAP, "more items stored than the capacity");
   for (int t = 0; t < 3; t++) VP_ASSERT(!bq_sleeping[t] && !bq_woken[t], "a finished thread is still registered as a sleeper / has an unconsumed wake-up");
+#if REALCPP == 2
+  VP_ASSERT(Q.f4 == MON, "my_monitors changed");
+  for (int i = 0; i < 2; i++) VP_ASSERT(vp_mon_waiters(&Q, i) == 0 && vp_mon_closed(&Q, i) && vp_mon_mutex_free(&Q, i), "monitor not idle at quiescence: wait set not empty / list not closed / monitor mutex held");
+#endif
 #endif
   for (int l = 0; l < 8; l++) VP_ASSERT(vp_q_lane_ok(&Q, l), "lane invariant broken at quiescence (counters / page list / page mutex)");
   VP_ASSERT(vp_q_empty(&Q) == (PRE_PUSH - PRE_POP + npush - npop_ok == 0), "empty() wrong at quiescence");
